@@ -151,18 +151,18 @@ PROPS = {
     ),
     'C10': dict(
         title='A source that fails to build has no effect on anything submitted afterwards',
-        verus_units=['compile'],
+        verus_units=['compile', 'state'],
         kani_groups=[],
         design_ref='DESIGN.md section 5 / C10',
         technique='Verus contracts on build_from_source/build_from_file/build_mark/build_abort/context_open (build0, intern_source assumed)',
         level_text='Deductive proof for all states: when the build of a source fails, build_abort restores nesting, context (mode, stack base), pending '
                    'inputs, pending flow, code, debug map, dictionary, return/loop/special stacks, data-stack height and the reverse log to the marks taken '
                    'before the source was opened; build_from_source/file call it on every failing build and return with the nesting they were entered with.',
-        level_note='Assumed: build0 (the token loop and every immediate word) only nests deeper and leaves the bookkeeping consistent; intern_source. '
-                   'NOT decided: the REPL\'s run_line (closure), run-time failures (by design they leave the state for the debugger; the ip stays on the failing '
-                   'instruction - C17).',
-        not_decided=['a line that fails at RUN time is left as is (debugger semantics): not-re-executed clause is not decided',
-                     'REPL run_line / snapshot handling (closures, outside Verus)'],
+        level_note='Assumed: build1 (the token loop and every immediate word; model contract) only nests deeper and leaves the bookkeeping consistent; intern_source. '
+                   'Last clause (a line that fails at run time is not re-executed): stated as the strict contract of run (after a failing run nothing of the failed line is left '
+                   'to execute); it FAILS on the tree - known finding D24, reported as KNOWN-FINDING, the relaxed contract (the ip stays on the failing instruction) is proved. '
+                   'NOT decided: the REPL\'s run_line (closure).',
+        not_decided=['REPL run_line / snapshot handling (closures, outside Verus)'],
     ),
     'C11': dict(
         title='Meta-evaluation is sealed and equivalent to inlining its result',
